@@ -57,12 +57,14 @@ class Harness:
         self.extra_stubs = []
         self.unwind = None
         self.expect = "pass"   # 'pass' | 'fail' (vacuity twins must FAIL)
+        self.unwindset = []    # [(substring of loop id / function, bound)]
 
     def as_dict(self):
         return {
             "id": self.id, "harness": self.fq, "file": "harness/" + self.file, "tier": self.tier,
             "functions_encoded": self.functions, "bounds": self.bounds, "asserts": self.asserts,
             "assumes": self.assumes, "outside": self.outside, "unwind": self.unwind,
+            "unwindset": ["%s:%d" % x for x in self.unwindset],
             "stub_tier": self.stub_tier, "extra_stubs": self.extra_stubs,
         }
 
@@ -124,6 +126,12 @@ def parse_file(fname):
                     setattr(h, cur, val)
                 elif cur == "stubs":
                     h.extra_stubs.append(val)
+                elif cur == "unwind":
+                    h.unwind = int(val)
+                elif cur == "unwindset":
+                    for kv in val.split(","):
+                        k, _, v = kv.strip().partition("=")
+                        h.unwindset.append((k.strip(), int(v)))
                 i += 1
             elif c and cur in ("functions", "bounds", "asserts", "assumes", "outside"):
                 setattr(h, cur, getattr(h, cur) + " " + c.group(1).strip())
@@ -136,6 +144,10 @@ def parse_file(fname):
             mf = re.match(r"\s*(pub\s+)?fn\s+([A-Za-z0-9_]+)\s*\(", l)
             if mf:
                 h.name = mf.group(2)
+                break
+            mi = re.match(r"\s*[a-z_0-9]+_instance!\(\s*([A-Za-z0-9_]+)\s*,", l)
+            if mi:
+                h.name = mi.group(1)
                 break
             mu = re.search(r"kani::unwind\((\d+)\)", l)
             if mu:
